@@ -781,7 +781,7 @@ def rule_intrinsic_modifiers(chk):
             chk.ob("C03.out/intrinsic-entry/%s#%d" % (short(b.get("parent") or b["path"]), n_sites), ok,
                    "the parameter's modifier and type are read from the same table entry" if ok else
                    "a signature parameter is built with a modifier that is not the `.1` of the table entry its type comes from", where(b, a.get("ln")))
-    chk.floor("C03.floor/intrinsic-entry-sites", n_sites, 2, "ParamType constructions in intrinsic_data", "ir/src/intrinsic_data.rs")
+    chk.floor("C03.floor/intrinsic-entry-sites", n_sites, 1, "ParamType constructions in intrinsic_data", "ir/src/intrinsic_data.rs")
     # the defaulting conversion is not used where signatures are built
     uses = []
     for path, b in f.bodies.items():
